@@ -33,6 +33,8 @@ import (
 	banktypes "github.com/cosmos/cosmos-sdk/x/bank/types"
 	govtypes "github.com/cosmos/cosmos-sdk/x/gov/types"
 	gogoproto "github.com/cosmos/gogoproto/proto"
+	gethcommon "github.com/ethereum/go-ethereum/common"
+	ethtypes "github.com/ethereum/go-ethereum/core/types"
 	"github.com/ethereum/go-ethereum/crypto"
 	consensustypes "github.com/palomachain/paloma/v2/x/consensus/types"
 	evmtypes "github.com/palomachain/paloma/v2/x/evm/types"
@@ -183,6 +185,26 @@ var kinds = []kindDef{
 	{name: "AddMessageEstimates/all", module: "consensus", all: true, signer: byVal, base: estimateBase},
 	{name: "AddEvidence", module: "consensus", signer: byVal, base: evidenceBase},
 	{name: "AddEvidence/all", module: "consensus", all: true, signer: byVal, base: evidenceBase},
+	// proof of a remote transaction (does not match the queued message: the chain is expected to refuse it in the end
+	// blocker once the quorum agrees on it)
+	{name: "AddEvidenceTx/all", module: "consensus", all: true, signer: byVal, base: func(c *chain, v int) sdk.Msg {
+		q := turnstoneQueue(chainA)
+		m := firstOf(c.e.App.ConsensusKeeper.GetMessagesForAttesting(c.ctx(), q, c.val(v).ValAddr))
+		if m == nil {
+			m = c.anyMsg()
+		}
+		to := gethcommon.HexToAddress(compassAddr(chainA))
+		tx, err := ethtypes.SignTx(ethtypes.NewTx(&ethtypes.LegacyTx{Nonce: 7, GasPrice: big.NewInt(1_000_000_000), Gas: 300_000, To: &to, Value: big.NewInt(0), Data: []byte{0xde, 0xad, 0xbe, 0xef}}),
+			ethtypes.NewEIP155Signer(big.NewInt(100)), c.w.ethKey[0])
+		must(err)
+		raw, err := tx.MarshalBinary()
+		must(err)
+		rc, err := (&ethtypes.Receipt{Status: ethtypes.ReceiptStatusSuccessful, CumulativeGasUsed: 21000, Logs: []*ethtypes.Log{}, TxHash: tx.Hash(), GasUsed: 21000}).MarshalBinary()
+		must(err)
+		p, err := codectypes.NewAnyWithValue(&evmtypes.TxExecutedProof{SerializedTX: raw, SerializedReceipt: rc})
+		must(err)
+		return &consensustypes.MsgAddEvidence{Metadata: metaOf(c.valAcc(v)), MessageID: idOf(m, 1), QueueTypeName: q, Proof: p}
+	}},
 	{name: "AddEvidenceBalances/all", module: "consensus", all: true, signer: byVal, base: func(c *chain, v int) sdk.Msg {
 		q := balancesQueue(chainA)
 		m := firstOf(c.e.App.ConsensusKeeper.GetMessagesForAttesting(c.ctx(), q, c.val(v).ValAddr))
